@@ -27,6 +27,13 @@ def parseStep (j : Json) : Except String Step := do
         if h2 : b.size = 2 then return ((← b[0].getNat?), (← optNat b[1])) else throw "l"
       return .leave ids
     | "s" => return .setCtx (← parseCtx a[1])
+    | "w" =>
+      if h4 : a.size = 4 then
+        let pc ← match ← a[2].getStr? with
+          | "skip" => pure PC.skip | "lax" => pure PC.lax | "strict" => pure PC.strict | _ => throw "pc"
+        return .wild (← a[1].getBool?) pc (← a[3].getNat?)
+      else throw "w"
+    | "r" => return .nsRead (← a[1].getNat?)
     | "m" => return .memoCall (← a[1].getNat?)
     | "z" => return .scratchUse (← natsOf a[1])
     | _ => throw "step"
@@ -43,7 +50,9 @@ def parseSch (j : Json) : Except String Sch := do
   let base ← (← getArr j "base").toList.mapM fun w => do
     let a ← w.getArr?
     if h : a.size = 2 then return ((← a[0].getNat?), (← a[1].getNat?)) else throw "base"
-  return { complex := cx, wtab := wid, base := base, pure := fun k => k }
+  let nsBase := match j.getObjVal? "nsBase" with | .ok v => (natsOf v).toOption.getD [] | _ => []
+  let loadable := match j.getObjVal? "loadable" with | .ok v => (natsOf v).toOption.getD [] | _ => []
+  return { complex := cx, wtab := wid, base := base, pure := fun k => k, nsBase := nsBase, loadable := loadable }
 
 def pairLt (a b : Nat × Nat) : Bool := a.1 < b.1 || (a.1 == b.1 && a.2 < b.2)
 def pairsJ (l : List (Nat × Nat)) : Json :=
@@ -62,6 +71,8 @@ def obsJ : Obs → Json
   | .collected c g => Json.mkObj [("ctx", ctxJ c), ("gate", natsJ g)]
   | .memo v => Json.mkObj [("memo", Json.num v)]
   | .scratch s => Json.mkObj [("scratch", Json.arr (s.map fun (n : Nat) => Json.num n).toArray)]
+  | .ns a b => Json.mkObj [("ns", Json.arr #[Json.bool a, Json.bool b])]
+  | .nsSeen b => Json.mkObj [("seen", Json.bool b)]
 
 def resJ (r : Res) : Json :=
   Json.mkObj [
@@ -70,21 +81,23 @@ def resJ (r : Res) : Json :=
     ("elems", pairsJ r.elems),
     ("sel", pairsJ r.sel),
     ("memo", natsJ (r.memo.map (·.1))),
+    ("loaded", natsJ r.loaded),
     ("scratch", Json.arr (r.scratch.map fun (n : Nat) => Json.num n).toArray)]
 
 def modeOf : String → Mode
   | "old" => .old
-  | "ungated" => .ungated
-  | _ => .current
+  | "gated" => .gated
+  | "laxAttrNoLoad" => .laxAttrNoLoad
+  | _ => .ungated
 
 /-- residue after every call of the history, observations of the last document from that residue and from
-    a fresh schema, for the algorithm named by `mode` (default: the code as it is); the guard of
-    `history_neutral_partial` for the document -/
+    a fresh schema, for the algorithm named by `mode` (default: the code as it is, `ungated`); the guards
+    `nsQuiet` (history_neutral_partial) and `selfSufficient` (gated_neutral_partial) for the document -/
 def handle (j : Json) : Except String Json := do
   let sch ← parseSch (← j.getObjVal? "sch")
   let hist ← (← getArr j "hist").toList.mapM parseDoc
   let doc ← parseDoc (← j.getObjVal? "doc")
-  let m := modeOf ((j.getObjValAs? String "mode").toOption.getD "current")
+  let m := modeOf ((j.getObjValAs? String "mode").toOption.getD "ungated")
   let trace := (List.range (hist.length + 1)).map fun k => resJ (after sch m (hist.take k))
   let r := after sch m hist
   let used := call sch m r doc
@@ -95,6 +108,8 @@ def handle (j : Json) : Except String Json := do
     ("fresh", Json.arr (fresh.2.map obsJ).toArray),
     ("after", resJ used.1),
     ("complete", Json.bool (complete doc)),
+    ("plain", Json.bool (plainDoc doc)),
+    ("ns_quiet", Json.bool (nsQuiet sch doc)),
     ("self_sufficient", Json.bool (selfSufficient sch (Res.init, []) doc))]
 
 end XsVerif.Driver.C10
